@@ -129,6 +129,11 @@ def work(arg: tuple) -> dict:
     if fam != 'corpus':
         variants += [({n: 'async' for n in sp2['nodes']}, sp2) for sp2 in renamings(spec, tier)]
         variants += [({n: 'thread' for n in sp2['nodes']}, sp2) for sp2 in renamings(spec, tier)] if len(spec['nodes']) <= 4 else []
+    # node classes deriving from each other ACROSS execution modes (a thread-pool node whose parent class is an inline or a
+    # coroutine node, ...): how a node is dispatched must be decided from its own class
+    inh = S.with_inheritance(spec, same_mode_only=False)
+    if inh is not None:
+        variants += [(assign, inh) for assign in assignments(spec, tier)]
     variants = [(a, b, {'events': False}) for a, b in variants]
     # an event manager whose on_node_start hook suspends: a node held open in the hook must not delay its siblings
     hook = {'mode': 'gated', 'gate_kinds': ['node_start']}
